@@ -349,7 +349,9 @@ template< typename T, typename E>
       // TypedArgBase
       auto const  argh = entry.data();
 
-      if (argh->hasValue())
+      // only arguments that were used: a destination variable that contained
+      // a value before the evaluation does not belong into the summary
+      if (argh->wasUsed() && argh->hasValue())
       {
          std::ostringstream  os_value;
 
